@@ -119,3 +119,11 @@ def c10_known(flt, results, labels, ref, current=None):
         if not any(counts.get(t, 0) >= 2 for t in types):
             return None
     return "K5"
+
+
+# ---------------------------------------------------------------------------
+# C04
+
+
+def c04_known(cs, event, rel, variant, verdict):
+    return None
